@@ -68,6 +68,9 @@ TABLE = {
             'Trusted: decision table written from the property statement / docs.'),
 }
 
+# checks that are finished, validated on the unchanged tree and committed
+READY = {'C02', 'C04', 'C08', 'C09', 'C10', 'C11', 'C12', 'C13', 'C14', 'C15', 'C16', 'C18', 'C20'}
+
 PENDING_REASON = 'check not built yet in this session (designed in DESIGN.md section 4); nothing is claimed for it'
 
 
@@ -75,7 +78,7 @@ def main():
     checks, na = [], []
     for pid in sorted(TABLE):
         level, technique, text, note = TABLE[pid]
-        if os.path.exists(os.path.join(HERE, 'checks', pid.lower() + '.py')):
+        if pid in READY and os.path.exists(os.path.join(HERE, 'checks', pid.lower() + '.py')):
             checks.append({
                 'property_id': pid,
                 'quick_cmd': '/venv/bin/python check.py %s --tier quick' % pid,
